@@ -161,9 +161,9 @@ func (p *HTTPProxy) ServeHTTP(w http.ResponseWriter, r *http.Request) {
 		// section 5.3 of RFC7230 (https://tools.ietf.org/html/rfc7230#section-5.3)
 		targetURL.Path = absPath(targetURL.Path[len(t.StripPath):])
 		// keep the encoding the client used for the rest of the path
-		// (e.g. %2F) if its encoded form starts with the same prefix.
-		if strings.HasPrefix(targetURL.RawPath, t.StripPath) {
-			targetURL.RawPath = absPath(targetURL.RawPath[len(t.StripPath):])
+		// (e.g. %2F) however it has encoded the stripped prefix itself.
+		if rest, ok := rawPathAfter(targetURL.RawPath, len(t.StripPath)); ok {
+			targetURL.RawPath = absPath(rest)
 		} else {
 			targetURL.RawPath = ""
 		}
@@ -275,6 +275,23 @@ func (p *HTTPProxy) ServeHTTP(w http.ResponseWriter, r *http.Request) {
 			UpstreamURL:     targetURL,
 		})
 	}
+}
+
+// rawPathAfter returns what follows the first n decoded bytes
+// of the encoded path raw. It returns false if raw is empty or
+// cannot be cut at that position.
+func rawPathAfter(raw string, n int) (string, bool) {
+	i := 0
+	for ; n > 0 && i < len(raw); n-- {
+		if raw[i] == '%' {
+			i += 2
+		}
+		i++
+	}
+	if raw == "" || n > 0 || i > len(raw) {
+		return "", false
+	}
+	return raw[i:], true
 }
 
 // absPath returns p with a leading slash.
